@@ -342,6 +342,38 @@ func (w *world) forge(t *rapid.T) bool {
 	} else {
 		w.n.ABI.InsertAssetsFn = nil
 	}
+	// A real application returns one asset per module that has something to insert, in ITS order (the framework walks its module
+	// list), not sorted by module name: the generator has to sort them. (Added after seeded change C15-p: the fake application
+	// returned at most one asset.)
+	if rapid.IntRange(0, 2).Draw(t, "extraAssets") == 0 {
+		names := []string{"zeta", "alpha", "mid", "verifz", "auth", "Beta"}
+		k := rapid.IntRange(1, 4).Draw(t, "extraAssetCount")
+		var extra []*blockchain.BlockAsset
+		for i := 0; i < k; i++ {
+			nm := names[rapid.IntRange(0, len(names)-1).Draw(t, "extraAssetModule")]
+			dup := false
+			for _, e := range extra {
+				dup = dup || e.Module == nm
+			}
+			if !dup {
+				extra = append(extra, &blockchain.BlockAsset{Module: nm, Data: []byte{byte(i), byte(len(nm))}})
+			}
+		}
+		front := rapid.Bool().Draw(t, "extraAssetsFirst")
+		inner := w.n.ABI.InsertAssetsFn
+		w.n.ABI.InsertAssetsFn = func(h uint32) []*blockchain.BlockAsset {
+			var own []*blockchain.BlockAsset
+			if inner != nil {
+				own = inner(h)
+			}
+			if front {
+				return append(append([]*blockchain.BlockAsset{}, extra...), own...)
+			}
+			return append(append([]*blockchain.BlockAsset{}, own...), extra...)
+		}
+		w.hist = append(w.hist, fmt.Sprintf("application inserts %d further assets in its own (unsorted) order, first=%v", len(extra), front))
+		evid.R.Label("forge-with-several-assets-in-application-order", 1)
+	}
 	// sometimes the validators certify the precommitted height first, so that a non-empty aggregate commit is available
 	if _, pc, cert := w.n.Heights(); pc > cert && (w.forceCertify || rapid.IntRange(0, 2).Draw(t, "certify") == 0) {
 		if p, err := w.n.CurrentParams(pc); err == nil {
